@@ -388,7 +388,7 @@ class MaskEval:
                 return M(tuple(a.tops) + tuple(b.tops), set(a.offs) | set(b.offs), ())
             if isinstance(e.op, ast.FloorDiv):
                 dv = norm(e.right)
-                if dv in ('t + 1', 'math.comb(m, t)', 'd', 'self.threshold + 1') or 'comb(' in dv:
+                if dv in ('t + 1', 'math.comb(m, t)', 'd', 'self.threshold + 1', 'T + 1') or 'comb(' in dv:
                     return M(a.tops, a.offs, a.exps)  # bound // (number of contributors): their sum has the numerator's bound
                 ci = const_int(e.right)
                 if ci is not None and ci > 0:
@@ -446,13 +446,20 @@ def rule_MK2(ctx, rep, scope=None):
         for s in iter_nodes(fn.node):
             if isinstance(s, ast.Assign) and isinstance(s.targets[0], ast.Name) and 'bit_length' in norm(s.value) and '.bit_length()' not in norm(s.value):
                 blnames.add(s.targets[0].id)
+        pmf = astq.parents(fn.node)
+        blsyms = set()
+        for x in iter_nodes(fn.node):
+            if isinstance(x, ast.Attribute) and x.attr == 'bit_length':
+                par = pmf.get(id(x))
+                if not (isinstance(par, ast.Call) and par.func is x):
+                    blsyms.add('<' + norm(x) + '>')
         for e in opens.values():
             n += 1
             arg = e.extra.get('arg')
             me = MaskEval(fn, p.k_names, before=astq.position(astq.enclosing_stmt(e.node, astq.parents(fn.node))))
             m = me._flat(me.ev(arg)) if arg is not None else M()
             groups = [g for g in m.tops if g]
-            cands = list(m.offs) or [Lin.sym(b) for b in sorted(blnames)]
+            cands = list(m.offs) or [Lin.sym(b) for b in sorted(blnames | blsyms)]
             if not groups:
                 rep.skip('MK2', fn, e.node, 'size of the mask not recognised')
                 continue
@@ -481,49 +488,85 @@ def rule_MK2(ctx, rep, scope=None):
 
 
 # ---------------------------------------------------------------------------------- MK5
+def _count_kind(fn, e, use, pm):
+    """What does a divisor count?  'senders' for T+1, 'subsets' for comb(M, T), else None."""
+    from . import sem
+    l = sem.slin(fn, e, use, pm)
+    if l is not None and l == Lin.sym('T') + 1:
+        return 'senders'
+    e2 = sem.expand(fn, e, use, pm)
+    if isinstance(e2, ast.Call) and norm(e2.func) == 'math.comb' and len(e2.args) == 2:
+        a, b = sem.slin(fn, e2.args[0]), sem.slin(fn, e2.args[1])
+        if a is not None and b is not None and a == Lin.sym('M') and b == Lin.sym('T'):
+            return 'subsets'
+    return None
+
+
 def rule_MK5(ctx, rep):
     """contributor count: a bounded random value is the sum of one contribution per sender (t+1 senders without
     PRSS) or per key subset (comb(m, t) subsets with PRSS); each contribution is bounded by bound // that count,
     so that the sum stays below the bound (no wrap-around modulo the field) and above bound/2 in magnitude."""
+    from . import sem
     model = ctx.model
     n = 0
-    for q in ('_randoms', '_np_randoms'):
+    for q in ('_randoms', '_np_randoms', '_convert'):
         fn = model.func('runtime::Runtime.' + q)
-        ds = [s for s in iter_nodes(fn.node) if isinstance(s, ast.Assign) and norm(s.targets[0]) == 'd']
-        uses = [s for s in iter_nodes(fn.node) if isinstance(s, ast.Assign) and norm(s.targets[0]) == 'bound' and 'bound // d' in norm(s.value)]
-        n += 1
-        good = False
-        if len(ds) == 1 and isinstance(ds[0].value, ast.IfExp) and uses:
-            v = ds[0].value
-            t = norm(v.test)
-            a, b = norm(v.body), norm(v.orelse)
-            if t == 'self.options.no_prss' and a == 't + 1' and b == 'math.comb(m, t)':
-                good = True
-            if t == 'not self.options.no_prss' and b == 't + 1' and a == 'math.comb(m, t)':
-                good = True
-        if good:
-            rep.ok('MK5', fn, ds[0], 'each contribution is bounded by bound // (number of contributions): t+1 senders, or comb(m, t) key subsets')
-        else:
-            rep.bad('MK5', fn, ds[0] if ds else fn.qualname, 'the per-contribution bound is not bound // (t+1 senders | comb(m, t) subsets): the sum of the contributions '
+        pm = astq.parents(fn.node)
+        sites = [x for x in iter_nodes(fn.node) if isinstance(x, ast.BinOp) and isinstance(x.op, ast.FloorDiv) and const_int(x.right) is None]
+        found = 0
+        for x in sites:
+            cs = sem.cases(fn, x.right, x, pm, sem.is_noprss)
+            if not any(_count_kind(fn, e, x, pm) for _, e in cs):
+                continue      # some other division
+            found += 1
+            n += 1
+            probs = []
+            seen = set()
+            for flag, e in cs:
+                kind = _count_kind(fn, e, x, pm)
+                seen.add(flag)
+                if flag is None:
+                    probs.append(f'the divisor {norm(e)} is used regardless of the PRSS option: without PRSS t+1 senders contribute, with PRSS comb(m, t) key subsets')
+                elif flag and kind != 'senders':
+                    probs.append(f'without PRSS the contributions are bounded by bound // {norm(e)}, but t+1 senders contribute')
+                elif not flag and kind != 'subsets':
+                    probs.append(f'with PRSS the contributions are bounded by bound // {norm(e)}, but comb(m, t) key subsets contribute')
+            if probs:
+                for pr in probs:
+                    rep.bad('MK5', fn, x, pr + ': the sum of the contributions exceeds the intended bound (masked values wrap around the modulus) or falls short of it')
+            else:
+                rep.ok('MK5', fn, x, 'each contribution is bounded by bound // (number of contributions): t+1 senders without PRSS, comb(m, t) key subsets with PRSS')
+        if not found:
+            rep.bad('MK5', fn, fn.qualname, 'the per-contribution bound is not bound // (t+1 senders | comb(m, t) subsets): the sum of the contributions '
                     'exceeds the intended bound (masked values wrap around the modulus) or falls short of it', fn.node)
-        # the senders really are t+1 parties
-        snd = [s for s in iter_nodes(fn.node) if isinstance(s, ast.Assign) and norm(s.targets[0]) == 'senders']
-        if snd and 'range(t + 1)' in norm(snd[0].value):
-            rep.ok('MK5', fn, snd[0], 't+1 senders contribute without PRSS')
+            n += 1
+        if q == '_convert':
+            continue
+        # the senders really are t+1 distinct parties
+        ins = [c for c in astq.calls_named(fn.node, 'input') if any(k.arg == 'senders' for k in c.keywords)]
+        good = False
+        site = fn.qualname
+        if ins:
+            sv = [k.value for k in ins[0].keywords if k.arg == 'senders'][0]
+            site = sv
+            v = sem.resolve(fn, sv, ins[0], pm)
+            if isinstance(v, ast.Call) and isinstance(v.func, ast.Name) and v.func.id in ('tuple', 'list') and len(v.args) == 1:
+                v = v.args[0]
+            if isinstance(v, (ast.GeneratorExp, ast.ListComp)) and len(v.generators) == 1 and not v.generators[0].ifs:
+                g = v.generators[0]
+                it = g.iter
+                if isinstance(it, ast.Call) and isinstance(it.func, ast.Name) and it.func.id == 'range' and len(it.args) == 1 and isinstance(g.target, ast.Name):
+                    cnt = sem.slin(fn, it.args[0], ins[0], pm)
+                    elt = v.elt
+                    inj = False
+                    if isinstance(elt, ast.BinOp) and isinstance(elt.op, ast.Mod):
+                        mod = sem.slin(fn, elt.right, ins[0], pm)
+                        inner = to_lin(sem.symx(elt.left), {}, opaque=True)
+                        inj = mod is not None and mod == Lin.sym('M') and inner is not None and abs(inner.coef(g.target.id)) == 1
+                    good = cnt is not None and cnt == Lin.sym('T') + 1 and inj
+        if good:
+            rep.ok('MK5', fn, site, 't+1 distinct senders contribute without PRSS')
         else:
-            rep.bad('MK5', fn, snd[0] if snd else fn.qualname, 'the number of senders without PRSS is not t+1', fn.node)
-    fn = model.func('runtime::Runtime._convert')
-    pm = astq.parents(fn.node)
-    bs = [s for s in iter_nodes(fn.node) if isinstance(s, ast.Assign) and norm(s.targets[0]) == 'bound' and '//' in norm(s.value)]
-    for s in bs:
-        n += 1
-        g = [(norm(i.test), br) for i, br in astq.enclosing_ifs(s, pm, stop=fn.node) if 'no_prss' in norm(i.test)]
-        noprss = any((t == 'self.options.no_prss' and br == 'body') or (t == 'not self.options.no_prss' and br == 'orelse') for t, br in g)
-        dv = [x for x in ast.walk(s.value) if isinstance(x, ast.BinOp) and isinstance(x.op, ast.FloorDiv)]
-        d = norm(dv[0].right) if dv else None
-        if (noprss and d == 't + 1') or (not noprss and d == 'math.comb(m, t)'):
-            rep.ok('MK5', fn, s, f'mask contributions bounded by bound // {d} on the {"no-PRSS" if noprss else "PRSS"} path')
-        else:
-            rep.bad('MK5', fn, s, f'on the {"no-PRSS" if noprss else "PRSS"} path the mask contributions are bounded by // {d}, not by the number of contributions')
+            rep.bad('MK5', fn, site, 'the number of senders without PRSS is not t+1', fn.node)
     if n < 4:
         raise AnalysisError('MK5: contributor-count sites not found')
